@@ -243,6 +243,39 @@ def global_writes(repo, mods):
               b = dotted(t.value)
               if b and '.' not in b and b in gl and b not in localnames:
                 out.append((fi, x, 'mutate', '%s.%s' % (m.name, b)))
+    # a local that merely names a module-level container (`x = TABLE`, no
+    # copy) and is then changed in place changes the shared object
+    for fi in m.funcs.values():
+      declared = {n_ for x in walk_local(fi.node) if isinstance(x, ast.Global) for n_ in x.names}
+      alias = {}
+      for x in walk_local(fi.node):
+        if isinstance(x, ast.Assign) and len(x.targets) == 1 and isinstance(x.targets[0], ast.Name) \
+            and isinstance(x.value, ast.Name) and x.value.id in gl and x.value.id not in fi.params \
+            and x.targets[0].id not in declared and x.targets[0].id != x.value.id:
+          try:
+            init = m.module_assign(x.value.id)
+          except AnalysisError:
+            init = None
+          mutable = isinstance(init, (ast.List, ast.Dict, ast.Set, ast.ListComp, ast.DictComp,
+                                      ast.SetComp)) or (
+              isinstance(init, ast.Call) and call_tail(init) in (
+                  'set', 'list', 'dict', 'defaultdict', 'OrderedDict', 'deque', 'Counter')) or (
+              isinstance(init, ast.BinOp) and isinstance(init.op, (ast.BitOr, ast.Add)) and
+              not isinstance(init.left, ast.Constant))
+          if mutable:
+            alias[x.targets[0].id] = x.value.id
+      if not alias:
+        continue
+      for x in walk_local(fi.node):
+        if isinstance(x, ast.AugAssign) and isinstance(x.target, ast.Name) and x.target.id in alias:
+          out.append((fi, x, 'mutate', '%s.%s' % (m.name, alias[x.target.id])))
+        elif isinstance(x, ast.Call) and isinstance(x.func, ast.Attribute) and \
+            x.func.attr in MUTATORS and isinstance(x.func.value, ast.Name) and x.func.value.id in alias:
+          out.append((fi, x, 'mutate', '%s.%s' % (m.name, alias[x.func.value.id])))
+        elif isinstance(x, (ast.Assign, ast.Delete)):
+          for t in x.targets:
+            if isinstance(t, ast.Subscript) and isinstance(t.value, ast.Name) and t.value.id in alias:
+              out.append((fi, x, 'mutate', '%s.%s' % (m.name, alias[t.value.id])))
     # mutable default arguments that are mutated
     for fi in m.funcs.values():
       a = fi.node.args
@@ -433,6 +466,35 @@ def nondeterminism(chk, rid):
         chk.ob(rid, ok, None, '%s(..) is confined' % tag, why, fi=fi, node=c)
   if found < 3:
     raise AnalysisError('expected the known time()/id() sites (>=3), found %d' % found)
+  # the process environment is a source too: a compiled text that contains the
+  # temp directory, the working directory, a variable of the environment or
+  # the host / user name differs from process to process.  None of the compile
+  # modules reads any of them today (expected count zero; the seeded change
+  # seeded/C13f is the positive example of the self-test)
+  env_hits = []
+  for m in mods:
+    for fi in m.funcs.values():
+      for x in walk_local(fi.node):
+        d = dotted(x.func) if isinstance(x, ast.Call) else (
+            dotted(x) if isinstance(x, ast.Attribute) else None)
+        if not d:
+          continue
+        parts = d.split('.')
+        if parts[0] == 'tempfile' and len(parts) == 2 and parts[0] in m.imports or \
+            d in ('os.getenv', 'os.getcwd', 'os.getcwdb', 'os.getlogin', 'os.uname',
+                  'socket.gethostname', 'getpass.getuser', 'os.path.expanduser',
+                  'platform.node', 'platform.system', 'platform.platform') or \
+            (isinstance(x, ast.Attribute) and d in ('os.environ', 'os.environb')):
+          if parts[0] in m.imports or parts[0] == 'os':
+            env_hits.append((fi, x, d))
+  chk.ob(rid, not env_hits, None,
+         'no compile module reads the process environment (temp dir, cwd, environment '
+         'variables, host, user)',
+         '%s in %s: what is compiled depends on the environment of the process, not on '
+         'the program text alone' % (env_hits[0][2] if env_hits else '',
+                                     env_hits[0][0].fq if env_hits else ''),
+         fi=env_hits[0][0] if env_hits else repo.func('universe.LogicaProgram.__init__'),
+         node=env_hits[0][1] if env_hits else None)
 
 
 def nondet_confined(repo, fi, call, tag):
